@@ -424,7 +424,7 @@ func (g *rwgen) atom() *pexpr {
 	return &pexpr{kind: "A", name: fmt.Sprintf("v%d", 1+g.r.Intn(4))}
 }
 
-var rwBin = []string{"AndToken", "OrToken", "AndToken", "OrToken", "EqEqToken", "NotEqToken", "EqEqEqToken", "NotEqEqToken", "LtToken", "AddToken", "MulToken", "CommaToken", "BitOrToken"}
+var rwBin = []string{"AndToken", "OrToken", "AndToken", "OrToken", "EqEqToken", "NotEqToken", "EqEqEqToken", "NotEqEqToken", "LtToken", "AddToken", "MulToken", "CommaToken", "BitOrToken", "ExpToken", "NullishToken"}
 
 func binInfo(tok string) (lv, lf, rt int) {
 	for _, o := range binOps {
@@ -472,6 +472,11 @@ func (g *rwgen) expr(depth int) *pexpr {
 			x = g.fit(x, lf)
 		}
 		y := g.fit(g.expr(depth-1), rt)
+		if op == "NullishToken" { // nested ?? chains are flattened by js.go ((a??b)??(c??d) => a??b??c??d): outside the model
+			for isNullish(x) || isNullish(y) {
+				x, y = g.fit(g.atom(), lf), g.fit(g.atom(), rt)
+			}
+		}
 		if op == "CommaToken" {
 			for y.kind == "B" && y.op == "CommaToken" {
 				y = &pexpr{kind: "G", kids: []*pexpr{y}}
@@ -526,11 +531,40 @@ func runRewriteCases(seed uint64, n int, outDir string, extra map[string]interfa
 		// one case in three is a bare expression statement (position precedence OpExpr: the (a,b) op c unwrapping can fire);
 		// roots that statement-level rewrites of stmtlist.go touch (conditionals, &&, ||, !) are kept under `x0 =`
 		bare := k%3 == 0 && e.kind == "B" && e.op != "AndToken" && e.op != "OrToken" && e.op != "CommaToken" && e.op != "EqToken"
-		if bare {
+		if k%6 == 0 {
+			// a statement (x, LAST) op y built on purpose: LAST just below / at / above the level the left operand of op needs
+			op := []string{"ExpToken", "NullishToken", "MulToken", "AddToken", "LtToken", "EqEqToken", "BitOrToken", "ExpToken"}[r.Intn(8)]
+			var last *pexpr
+			switch r.Intn(8) {
+			case 0:
+				last = &pexpr{kind: "P", op: "NotToken", kids: []*pexpr{g.fit(g.expr(1), 14)}}
+			case 1:
+				last = &pexpr{kind: "B", op: "ExpToken", kids: []*pexpr{g.atom(), g.atom()}}
+			case 2:
+				last = &pexpr{kind: "T", name: []string{"true", "false"}[r.Intn(2)]}
+			case 3:
+				last = &pexpr{kind: "P", op: "NotToken", kids: []*pexpr{{kind: "G", kids: []*pexpr{{kind: "B", op: []string{"AndToken", "OrToken", "EqEqToken"}[r.Intn(3)], kids: []*pexpr{g.atom(), g.atom()}}}}}}
+			case 4:
+				last = &pexpr{kind: "B", op: []string{"MulToken", "AddToken", "LtToken", "BitOrToken", "AndToken"}[r.Intn(5)], kids: []*pexpr{g.atom(), g.atom()}}
+			default:
+				last = g.fit(g.expr(2), 1)
+			}
+			_, _, rt := binInfo(op)
+			right := g.fit(g.expr(1), rt)
+			if op == "NullishToken" { // nested ?? chains are flattened by js.go: outside the model
+				if isNullish(right) {
+					right = g.atom()
+				}
+				if isNullish(last) {
+					last = g.atom()
+				}
+			}
+			l := &pexpr{kind: "B", op: "CommaToken", kids: []*pexpr{g.fit(g.expr(1), 1), last}}
+			e = &pexpr{kind: "B", op: op, kids: []*pexpr{{kind: "G", kids: []*pexpr{l}}, right}}
+			bare = true
+		} else if bare {
 			// make the left operand a parenthesised comma list more often
 			if r.Intn(2) == 0 {
-				_, lf, _ := binInfo(e.op)
-				_ = lf
 				l := &pexpr{kind: "B", op: "CommaToken", kids: []*pexpr{g.fit(g.expr(1), 1), g.fit(g.expr(2), 1)}}
 				e.kids[0] = &pexpr{kind: "G", kids: []*pexpr{l}}
 			}
